@@ -2,7 +2,7 @@
 from metapype.eml import references, validate
 from metapype.model import metapype_io
 from metapype.model.node import Node
-from harness.hlib import nodes, part
+from harness.hlib import fresh, nodes, part
 
 _P = part(0)
 OP1 = _P % 10                          # first operation pinned per process
@@ -22,7 +22,7 @@ def cint(x: int, n: int) -> int:
 
 class World:
     def __init__(self, small=False):
-        Node.store.clear()
+        fresh()
         if small:
             # depth-3 runs: a 4-node tree and a lone node, registry-only operations (create, copy, attach, replace, delete, re-import)
             r = Node("r", id="r")
